@@ -667,8 +667,60 @@ func checkC13(c *Ctx, r *Report) {
 			if p, _ := addrPath(ld.X); p != "Overrides" {
 				continue
 			}
+			// the registry's own map, as nfpm.Get reads it
+			var regGlobal *ssa.Global
+			forEachInstr(reg, func(in ssa.Instruction) {
+				if lk, ok := in.(*ssa.Lookup); ok && lk.CommaOk {
+					if g := rootGlobal(lk.X); g != nil {
+						regGlobal = g
+					}
+				}
+			})
 			for _, b := range mr.bodyBlocks() {
 				for _, in := range b.Instrs {
+					// the lookup done in place: `_, ok := packagers[key]` with
+					// the not-found edge returning an error
+					if lk, isLk := in.(*ssa.Lookup); isLk && lk.CommaOk && regGlobal != nil && rootGlobal(lk.X) == regGlobal && lk.Index == mr.Key && lk.Referrers() != nil {
+						for _, ref := range *lk.Referrers() {
+							ex, isEx := ref.(*ssa.Extract)
+							if !isEx || ex.Index != 1 || ex.Referrers() == nil {
+								continue
+							}
+							for _, r2 := range *ex.Referrers() {
+								ifi, isIf := r2.(*ssa.If)
+								if !isIf {
+									continue
+								}
+								notFound := ifi.Block().Succs[1]
+								if ret, isRet := notFound.Instrs[len(notFound.Instrs)-1].(*ssa.Return); isRet && errorIsNonNilAt(ret) {
+									okV = true
+									why = "every override key is looked up in the registry map and an unknown one returns an error"
+									header := mr.Next.Block()
+									seen := map[*ssa.BasicBlock]bool{}
+									var dfs func(b *ssa.BasicBlock) bool
+									dfs = func(b *ssa.BasicBlock) bool {
+										if b == lk.Block() || seen[b] {
+											return false
+										}
+										if b == header {
+											return true
+										}
+										seen[b] = true
+										for _, s := range b.Succs {
+											if dfs(s) {
+												return true
+											}
+										}
+										return false
+									}
+									if mr.Body != nil && dfs(mr.Body) {
+										okV = false
+										why = "some iterations of the loop over the override blocks skip the registry lookup: a block under an unregistered format's key would be accepted (and then silently ignored)"
+									}
+								}
+							}
+						}
+					}
 					call, ok := in.(*ssa.Call)
 					if !ok || call.Call.StaticCallee() != reg || call.Call.Args[0] != mr.Key {
 						continue
